@@ -406,6 +406,13 @@ FUNCS = [
      "bind": {"self.buffer.is_empty()": "s.buf.isEmpty", "self.cluster.is_idle()": "s.cl.isIdle",
               "self.scheduler.is_idle()": "s.queue.isEmpty", "self.instrument.is_idle()": "s.telIsIdle"},
      "props": ["C19", "C04", "C05"]},
+    {"name": "bufferIsEmpty", "file": "topsim/core/buffer.py", "cls": "Buffer", "func": "is_empty",
+     "mode": "func", "sig": "(b : Buffer) : Bool",
+     # the configuration parser builds exactly one hot and one cold tier ({0: hot}, {0: cold})
+     "bind": {"self.hot": "[b.hot]", "self.cold": "[b.cold]",
+              "self.hot[buf].total_capacity": "buf.total", "self.hot[buf].current_capacity": "buf.cur",
+              "self.cold[buf].total_capacity": "buf.total", "self.cold[buf].current_capacity": "buf.cur"},
+     "props": ["C19", "C04"]},
     {"name": "telescopeIsIdle", "file": "topsim/user/telescope.py", "cls": "Telescope", "func": "is_idle",
      "mode": "func", "sig": "(s : Sys) : Bool",
      "bind": {"self.observations": "s.obs", "observation.status != RunStatus.FINISHED": "(observation.status != RunStatus.finished)",
